@@ -33,8 +33,13 @@ _REPO_PKG = "github.com/jf-tech/omniparser/"
 def _go_fatal(stderr, last_rec):
     """classify a dead harness: returns the crash description if the Go runtime killed the process inside omniparser code"""
     m = re.search(r"^fatal error: (.*)$", stderr, re.M)
+    panic = False
     if not m:
-        return None
+        # a panic nobody recovered (in a goroutine of the driver that was inside the library at that moment)
+        m = re.search(r"^panic: (.*)$", stderr, re.M)
+        panic = True
+        if not m:
+            return None
     g = re.search(r"^goroutine \d+[^\n]*\[running[^\n]*\]:\n", stderr, re.M)
     if not g:
         return None
@@ -44,16 +49,26 @@ def _go_fatal(stderr, last_rec):
             break
         if not ln.startswith("\t") and not ln.startswith("..."):
             frames.append(ln.split("(")[0].strip() if not ln.startswith(_REPO_PKG) else ln[:ln.rfind("(")].strip())
-    user = [f for f in frames if not f.startswith("runtime.") and not f.startswith("runtime/")]
+    user = [f for f in frames if not f.startswith("runtime.") and not f.startswith("runtime/") and f != "panic"]
     if not user:
         return None
     if not user[0].startswith(_REPO_PKG):
         # unsynchronised access to a map of a third-party object (e.g. a goja runtime) is detected inside that library;
         # it is the library's caller - omniparser code further down the same stack - that shared the object
         repo = [f for f in user if f.startswith(_REPO_PKG)]
-        if not (m.group(1).startswith("concurrent map") and repo):
+        # ... and a stack overflow is detected wherever the recursion happened to be when the stack ran out: the culprit is
+        # the function that recurses - the omniparser function that fills the trace
+        if m.group(1).startswith("stack overflow") and repo:
+            repo.sort(key=lambda f: -repo.count(f))
+        elif not (m.group(1).startswith("concurrent map") and repo):
             return None
         user = repo + user
+    if panic:
+        # (the text of a panic carries values - indexes, addresses: the finding is identified by where it happened)
+        what = re.sub(r"\[[^\]]*\]|0x[0-9a-f]+|\d+", "", m.group(1)).strip()[:80]
+        return {"fatal": "panic: " + what, "function": user[0], "frames": user[:8], "last_record": last_rec,
+                "summary": "the process died of a panic inside %s that escaped to the caller's goroutine: %s%s" % (
+                    user[0], m.group(1).strip()[:200], (" after " + json.dumps(last_rec)[:300]) if last_rec else "")}
     return {"fatal": m.group(1).strip(), "function": user[0], "frames": user[:8], "last_record": last_rec,
             "summary": "the process died with the Go runtime fatal error '%s' inside %s%s" % (
                 m.group(1).strip(), user[0], (" after " + json.dumps(last_rec)[:300]) if last_rec else "")}
